@@ -115,6 +115,10 @@ def diff(a, b, path=""):
 
 def upgrade_cycle(ctx, pms, fmt, textin, expected, case, version, key=None):
     """Loads the old document and runs monitors (a)-(d).  Returns True when the document was accepted."""
+    if fmt in ("composeinfo", "images", "rpms") and "fixture" not in case and len(textin) % 2 == 0:
+        # key order in a JSON file is arbitrary: half of the generated documents get a shuffled order
+        textin = json.dumps(formats.shuffle_keys(json.loads(textin), random.Random(len(textin))), indent=1)
+        case = dict(case, document=textin)
     try:
         obj = formats.new_object(pms, fmt)
         obj.loads(textin)
